@@ -13,6 +13,15 @@
 // error, the stored function's missing-row default "-999999999,null", non-numeric fields,
 // zero / negative increment, a single field, an empty result set.
 //
+// Consumer side (added after seeded change c34-3): in the stmt-* scenarios the threads do not
+// call NextSeq themselves; each is a session of its proxy planning INSERT statements (1-4
+// rows with the sequence column omitted / NULL / nextval(), REPLACE, INSERT ... SET) through
+// the real plan path plan.BuildPlan -> HandleInsertStmt -> handleInsertGlobalSequenceValue,
+// on a real Router and a SequenceManager whose sequence for db.t delegates to the real
+// MySQLSequence and records every result in lock order. The values are read back from the
+// backend SQL of the plan. With block sizes 1-3 the cached block runs out between the rows of
+// a statement, so fetch faults are enumerated at every fetch position, also mid-statement.
+//
 // Oracle (the property statement, no more):
 //
 //	(1) all successfully returned values are pairwise distinct;
@@ -20,7 +29,11 @@
 //	    completed (= lock order: the harness records the value in the same scheduler step
 //	    in which the mutex is released);
 //	(3) a NextSeq call whose block fetch failed or whose reply is not "two integers with a
-//	    positive increment" returns an error, not a value.
+//	    positive increment" returns an error, not a value;
+//	(4) consumer side: a statement one of whose sequence requests failed is not planned; a
+//	    planned statement carries, row by row, exactly the values its requests returned (so
+//	    (1)/(2) hold for what reaches the backends; checked directly as well: plan values
+//	    pairwise distinct, increasing by row).
 //
 // (1)/(2) are evaluated on the values NOT explained by an already reported violation of (3):
 // once a proxy accepted a bad reply its cached block is garbage until its next good fetch
@@ -33,11 +46,17 @@ import (
 	"context"
 	"errors"
 	"fmt"
+	"regexp"
+	"strconv"
 	"strings"
 	"time"
 
 	"github.com/XiaoMi/Gaea/backend"
+	"github.com/XiaoMi/Gaea/models"
 	"github.com/XiaoMi/Gaea/mysql"
+	"github.com/XiaoMi/Gaea/parser"
+	"github.com/XiaoMi/Gaea/proxy/plan"
+	"github.com/XiaoMi/Gaea/proxy/router"
 	"github.com/XiaoMi/Gaea/proxy/sequence"
 	"github.com/XiaoMi/Gaea/verifshim/vsched"
 
@@ -79,6 +98,12 @@ func isErrorClass(c string) bool {
 type thr struct {
 	Proxy int `json:"proxy"`
 	Calls int `json:"calls"`
+	// Stmts: instead of calling NextSeq directly the thread plans these INSERT statements
+	// through the real plan path (plan.BuildPlan -> HandleInsertStmt ->
+	// handleInsertGlobalSequenceValue) of its proxy. Forms: vK = VALUES with K rows and the
+	// sequence column omitted, nK = K rows with an explicit NULL, fK = K rows with
+	// nextval(), rK = REPLACE with K rows, s = INSERT ... SET id = nextval().
+	Stmts []string `json:"stmts,omitempty"`
 }
 
 type scenario struct {
@@ -98,6 +123,21 @@ type callRec struct {
 	Val     int64
 	Err     string
 	Done    bool
+	Stmt    *stmtRec // statement on whose behalf the value was requested (consumer scenarios)
+}
+
+// stmtRec is one statement planned by a session of a proxy.
+type stmtRec struct {
+	Thread  string
+	Proxy   int
+	Form    string
+	SQL     string
+	Rows    int
+	Calls   []*callRec // NextSeq calls made while planning it, in order
+	Planned bool
+	Err     string
+	IDs     []int64 // sequence column of row j in the planned backend SQL
+	Bad     string  // the planned SQL carries something that is not an integer value
 }
 
 type seqTable struct {
@@ -113,6 +153,11 @@ type world struct {
 	active map[string]*callRec
 	done   []*callRec // in completion order
 	sqlBad string
+	// consumer side: one router + sequence manager per proxy, statements in completion order
+	routers []*router.Router
+	mgrs    []*sequence.SequenceManager
+	curStmt map[string]*stmtRec
+	stmts   []*stmtRec
 }
 
 var w *world
@@ -128,23 +173,207 @@ func setup(sc scenario) {
 		w.pools = append(w.pools, p)
 		w.seqs = append(w.seqs, sequence.NewMySQLSequence(sl, seqName, "id", sc.MaxLimit))
 	}
+	consumer := false
+	for _, t := range sc.Threads {
+		if len(t.Stmts) > 0 {
+			consumer = true
+		}
+	}
+	if !consumer {
+		return
+	}
+	w.curStmt = map[string]*stmtRec{}
+	for i := 0; i < sc.Proxies; i++ {
+		rt, err := router.NewRouter(&models.Namespace{
+			Slices:       []*models.Slice{{Name: "slice-0"}, {Name: "slice-1"}},
+			DefaultSlice: "slice-0",
+			ShardRules: []*models.Shard{{DB: "db", Table: "t", Type: "mod", Key: "k", Locations: []int{1, 1},
+				Slices: []string{"slice-0", "slice-1"}}},
+		})
+		if err != nil {
+			ev.Fatalf("NewRouter: %v", err)
+		}
+		mgr := sequence.NewSequenceManager()
+		if err := mgr.SetSequence("db", "t", &recSeq{w: w, proxy: i, inner: w.seqs[i]}); err != nil {
+			ev.Fatalf("SetSequence: %v", err)
+		}
+		w.routers = append(w.routers, rt)
+		w.mgrs = append(w.mgrs, mgr)
+	}
+}
+
+// recSeq is the sequence registered for db.t: it hands every request to the real
+// MySQLSequence and records what came back (value or error), in lock order.
+type recSeq struct {
+	w     *world
+	proxy int
+	inner *sequence.MySQLSequence
+}
+
+func (s *recSeq) GetPKName() string { return s.inner.GetPKName() }
+
+func (s *recSeq) NextSeq() (int64, error) {
+	return callNextSeq(s.w, vsched.ThreadName(), s.proxy)
+}
+
+func callNextSeq(ww *world, name string, proxy int) (int64, error) {
+	rec := &callRec{Thread: name, Proxy: proxy, Stmt: ww.curStmt[name]}
+	ww.active[name] = rec
+	v, err := ww.seqs[proxy].NextSeq()
+	// no scheduling point between the Unlock inside NextSeq and here
+	rec.Val, rec.Done = v, true
+	if err != nil {
+		rec.Err = err.Error()
+		if rec.Err == "" {
+			rec.Err = "error"
+		}
+	}
+	ww.done = append(ww.done, rec)
+	if rec.Stmt != nil {
+		rec.Stmt.Calls = append(rec.Stmt.Calls, rec)
+	}
+	delete(ww.active, name)
+	return v, err
+}
+
+// stmtSQL builds the statement of a form; row j has sharding key k=j and marker a='mj'.
+func stmtSQL(form string) (sql string, rows int) {
+	if form == "s" {
+		return "insert into t set k = 1, a = 'm0', id = nextval()", 1
+	}
+	rows = int(form[1] - '0')
+	var tuples []string
+	for j := 0; j < rows; j++ {
+		switch form[0] {
+		case 'v', 'r':
+			tuples = append(tuples, fmt.Sprintf("(%d, 'm%d')", j, j))
+		case 'n':
+			tuples = append(tuples, fmt.Sprintf("(null, %d, 'm%d')", j, j))
+		case 'f':
+			tuples = append(tuples, fmt.Sprintf("(%d, nextval(), 'm%d')", j, j))
+		}
+	}
+	switch form[0] {
+	case 'v':
+		sql = "insert into t (k, a) values "
+	case 'r':
+		sql = "replace into t (k, a) values "
+	case 'n':
+		sql = "insert into t (id, k, a) values "
+	case 'f':
+		sql = "insert into t (k, id, a) values "
+	default:
+		ev.Fatalf("unknown statement form %q", form)
+	}
+	return sql + strings.Join(tuples, ", "), rows
+}
+
+var (
+	reValues = regexp.MustCompile("^(?:INSERT|REPLACE) INTO `[^`]+` \\(([^)]*)\\) VALUES (.*)$")
+	reTuple  = regexp.MustCompile("\\(([^()]*)\\)")
+	reSet    = regexp.MustCompile("^INSERT INTO `[^`]+` SET (.*)$")
+	reMarker = regexp.MustCompile("^'m([0-9])'$")
+)
+
+// readIDs finds the sequence column of every row in the backend statements of a plan.
+func readIDs(st *stmtRec, sqls map[string]map[string][]string) {
+	st.IDs = make([]int64, st.Rows)
+	got := make([]bool, st.Rows)
+	put := func(marker, id string) {
+		m := reMarker.FindStringSubmatch(marker)
+		if m == nil {
+			st.Bad = "row marker " + marker
+			return
+		}
+		j := int(m[1][0] - '0')
+		v, err := strconv.ParseInt(id, 10, 64)
+		if err != nil || j >= st.Rows || got[j] {
+			st.Bad = fmt.Sprintf("row %d carries %s", j, id)
+			return
+		}
+		st.IDs[j], got[j] = v, true
+	}
+	for _, byDB := range sqls {
+		for _, list := range byDB {
+			for _, q := range list {
+				if m := reSet.FindStringSubmatch(q); m != nil {
+					marker, id := "", ""
+					for _, asg := range strings.Split(m[1], ",") {
+						kv := strings.SplitN(asg, "=", 2)
+						switch strings.Trim(kv[0], "` ") {
+						case "a":
+							marker = kv[1]
+						case "id":
+							id = kv[1]
+						}
+					}
+					put(marker, id)
+					continue
+				}
+				m := reValues.FindStringSubmatch(q)
+				if m == nil {
+					st.Bad = "statement " + q
+					return
+				}
+				ia, iid := -1, -1
+				for i, c := range strings.Split(m[1], ",") {
+					switch strings.Trim(c, "` ") {
+					case "a":
+						ia = i
+					case "id":
+						iid = i
+					}
+				}
+				for _, t := range reTuple.FindAllStringSubmatch(m[2], -1) {
+					f := strings.Split(t[1], ",")
+					if ia < 0 || iid < 0 || ia >= len(f) || iid >= len(f) {
+						st.Bad = "statement " + q
+						return
+					}
+					put(strings.TrimSpace(f[ia]), strings.TrimSpace(f[iid]))
+				}
+			}
+		}
+	}
+	for j, ok := range got {
+		if !ok && st.Bad == "" {
+			st.Bad = fmt.Sprintf("row %d is missing from the planned statements", j)
+		}
+	}
+}
+
+func planStmt(ww *world, name string, proxy int, form string) {
+	sql, rows := stmtSQL(form)
+	st := &stmtRec{Thread: name, Proxy: proxy, Form: form, SQL: sql, Rows: rows}
+	ww.curStmt[name] = st
+	defer func() {
+		delete(ww.curStmt, name)
+		ww.stmts = append(ww.stmts, st)
+	}()
+	node, err := parser.New().ParseOneStmt(sql, "", "")
+	if err != nil {
+		ev.Fatalf("harness statement does not parse: %s: %v", sql, err)
+	}
+	p, err := plan.BuildPlan(node, map[string]string{"db": "db"}, "db", sql, ww.routers[proxy], ww.mgrs[proxy], nil)
+	if err != nil {
+		st.Err = err.Error()
+		return
+	}
+	sqls, ok := plan.VerifInsertSQLs(p)
+	if !ok {
+		st.Err = fmt.Sprintf("not an insert plan: %T", p)
+		return
+	}
+	st.Planned = true
+	readIDs(st, sqls)
 }
 
 func runThread(ww *world, name string, t thr) {
+	for _, form := range t.Stmts {
+		planStmt(ww, name, t.Proxy, form)
+	}
 	for i := 0; i < t.Calls; i++ {
-		rec := &callRec{Thread: name, Proxy: t.Proxy}
-		ww.active[name] = rec
-		v, err := ww.seqs[t.Proxy].NextSeq()
-		// no scheduling point between the Unlock inside NextSeq and here
-		rec.Val, rec.Done = v, true
-		if err != nil {
-			rec.Err = err.Error()
-			if rec.Err == "" {
-				rec.Err = "error"
-			}
-		}
-		ww.done = append(ww.done, rec)
-		delete(ww.active, name)
+		callNextSeq(ww, name, t.Proxy)
 	}
 }
 
@@ -340,12 +569,62 @@ func judge(ww *world) (v verdict, outcome string) {
 		}
 		last[rec.Proxy], hasLast[rec.Proxy] = rec.Val, true
 	}
+	// consumer side: what the planned statements carry
+	var stmtV, planV verdict
+	planSeen := map[int64]*stmtRec{}
+	for _, st := range ww.stmts {
+		failed, class := false, ""
+		var vals []int64
+		for _, c := range st.Calls {
+			if c.Err != "" {
+				failed = true
+				if len(c.Fetches) > 0 {
+					class = c.Fetches[len(c.Fetches)-1]
+				}
+			} else {
+				vals = append(vals, c.Val)
+			}
+		}
+		if !st.Planned {
+			parts = append(parts, fmt.Sprintf("%s/p%d:%s=refused", st.Thread, st.Proxy, st.Form))
+			if !failed && stmtV.kind == "" {
+				stmtV = verdict{"invariant", fmt.Sprintf("%s on proxy %d: %q was refused although every sequence request succeeded: %s", st.Thread, st.Proxy, st.SQL, st.Err), "refused-without-failure"}
+			}
+			continue
+		}
+		parts = append(parts, fmt.Sprintf("%s/p%d:%s=%v", st.Thread, st.Proxy, st.Form, st.IDs))
+		if stmtV.kind != "" {
+			continue
+		}
+		switch {
+		case failed:
+			// a statement whose block fetch failed must not be planned
+			stmtV = verdict{"invariant", fmt.Sprintf("%s on proxy %d: %q (%d rows) was planned with sequence values %v although a sequence request of this statement failed (fetch outcome %q)", st.Thread, st.Proxy, st.SQL, st.Rows, st.IDs, class), "planned-despite-failed-fetch:" + class}
+		case st.Bad != "":
+			stmtV = verdict{"invariant", fmt.Sprintf("%s on proxy %d: %q was planned, but %s", st.Thread, st.Proxy, st.SQL, st.Bad), "plan-without-value"}
+		case fmt.Sprint(vals) != fmt.Sprint(st.IDs):
+			stmtV = verdict{"invariant", fmt.Sprintf("%s on proxy %d: %q was handed the sequence values %v but its plan carries %v (row order)", st.Thread, st.Proxy, st.SQL, vals, st.IDs), "plan-value-mismatch"}
+		}
+		// the oracle itself, on the values that reach the backends
+		for j, id := range st.IDs {
+			if o := planSeen[id]; o != nil && planV.kind == "" {
+				planV = verdict{"invariant", fmt.Sprintf("value %d is in the plan of %s/proxy %d (%s) and of %s/proxy %d (%s)", id, o.Thread, o.Proxy, o.Form, st.Thread, st.Proxy, st.Form), "duplicate-plan-value"}
+			}
+			planSeen[id] = st
+			if j > 0 && id <= st.IDs[j-1] && planV.kind == "" {
+				planV = verdict{"invariant", fmt.Sprintf("%s on proxy %d: rows of %q carry %v, not increasing", st.Thread, st.Proxy, st.SQL, st.IDs), "plan-not-increasing"}
+			}
+		}
+	}
 	outcome = fmt.Sprintf("tbl=%d|%s", ww.tbl.cur, strings.Join(parts, " "))
 	if ww.sqlBad != "" {
 		return verdict{"invariant", "unexpected fetch statement: " + ww.sqlBad, "fetch-sql"}, outcome
 	}
 	if pure.kind != "" {
 		return pure, outcome
+	}
+	if stmtV.kind != "" {
+		return stmtV, outcome
 	}
 	if accepted.kind != "" {
 		_ = acceptedRec
@@ -362,36 +641,51 @@ func judge(ww *world) (v verdict, outcome string) {
 		}
 		return accepted, outcome
 	}
+	if planV.kind != "" {
+		return planV, outcome
+	}
 	return verdict{}, outcome
 }
 
 // ---------------------------------------------------------------------------------------
 
 func scenarios(r *ev.Run) []scenario {
-	one := func(n int) []thr { return []thr{{0, n}, {0, n}} }
+	one := func(n int) []thr { return []thr{{Proxy: 0, Calls: n}, {Proxy: 0, Calls: n}} }
+	st := func(proxy int, forms ...string) thr { return thr{Proxy: proxy, Stmts: forms} }
 	s := []scenario{
 		// two threads on one proxy
 		{Name: "1proxy-2thr-b1", Proxies: 1, Block: 1, Threads: one(2), Faults: true},
 		{Name: "1proxy-2thr-b2", Proxies: 1, Block: 2, Threads: one(3), Faults: true},
 		{Name: "1proxy-2thr-b3", Proxies: 1, Block: 3, Threads: one(2), Faults: true},
 		// two proxies, one thread each
-		{Name: "2proxy-2thr-b1", Proxies: 2, Block: 1, Threads: []thr{{0, 3}, {1, 3}}, Faults: true},
-		{Name: "2proxy-2thr-b2", Proxies: 2, Block: 2, Threads: []thr{{0, 3}, {1, 3}}, Faults: true},
-		{Name: "2proxy-2thr-b5", Proxies: 2, Block: 5, Start: 5, Threads: []thr{{0, 3}, {1, 2}}, Faults: true},
+		{Name: "2proxy-2thr-b1", Proxies: 2, Block: 1, Threads: []thr{{Proxy: 0, Calls: 3}, {Proxy: 1, Calls: 3}}, Faults: true},
+		{Name: "2proxy-2thr-b2", Proxies: 2, Block: 2, Threads: []thr{{Proxy: 0, Calls: 3}, {Proxy: 1, Calls: 3}}, Faults: true},
+		{Name: "2proxy-2thr-b5", Proxies: 2, Block: 5, Start: 5, Threads: []thr{{Proxy: 0, Calls: 3}, {Proxy: 1, Calls: 2}}, Faults: true},
 		// schedules only (no faults)
-		{Name: "2proxy-2thr-b1-sched", Proxies: 2, Block: 1, Threads: []thr{{0, 3}, {1, 3}}},
+		{Name: "2proxy-2thr-b1-sched", Proxies: 2, Block: 1, Threads: []thr{{Proxy: 0, Calls: 3}, {Proxy: 1, Calls: 3}}},
 		{Name: "1proxy-2thr-b2-sched", Proxies: 1, Block: 2, Threads: one(3)},
 		// three threads: two share a proxy
-		{Name: "2proxy-3thr-b2", Proxies: 2, Block: 2, Threads: []thr{{0, 2}, {0, 2}, {1, 2}}, Faults: true},
-		{Name: "2proxy-3thr-b1", Proxies: 2, Block: 1, Threads: []thr{{0, 2}, {0, 1}, {1, 2}}, Faults: true},
-		{Name: "3proxy-3thr-b1", Proxies: 3, Block: 1, Threads: []thr{{0, 2}, {1, 2}, {2, 2}}, Faults: true},
-		{Name: "3proxy-3thr-b4", Proxies: 3, Block: 4, Threads: []thr{{0, 3}, {1, 1}, {2, 2}}, Faults: true},
+		{Name: "2proxy-3thr-b2", Proxies: 2, Block: 2, Threads: []thr{{Proxy: 0, Calls: 2}, {Proxy: 0, Calls: 2}, {Proxy: 1, Calls: 2}}, Faults: true},
+		{Name: "2proxy-3thr-b1", Proxies: 2, Block: 1, Threads: []thr{{Proxy: 0, Calls: 2}, {Proxy: 0, Calls: 1}, {Proxy: 1, Calls: 2}}, Faults: true},
+		{Name: "3proxy-3thr-b1", Proxies: 3, Block: 1, Threads: []thr{{Proxy: 0, Calls: 2}, {Proxy: 1, Calls: 2}, {Proxy: 2, Calls: 2}}, Faults: true},
+		{Name: "3proxy-3thr-b4", Proxies: 3, Block: 4, Threads: []thr{{Proxy: 0, Calls: 3}, {Proxy: 1, Calls: 1}, {Proxy: 2, Calls: 2}}, Faults: true},
 		// upper limit of the sequence (errors without a fetch are fine)
 		{Name: "1proxy-maxlimit", Proxies: 1, Block: 2, MaxLimit: 5, Threads: one(2), Faults: true},
-		{Name: "3proxy-3thr-b2", Proxies: 3, Block: 2, Threads: []thr{{0, 3}, {1, 3}, {2, 3}}, Faults: true},
-		{Name: "2proxy-3thr-b3", Proxies: 2, Block: 3, Threads: []thr{{0, 3}, {0, 3}, {1, 3}}, Faults: true},
-		{Name: "1proxy-3thr-b1", Proxies: 1, Block: 1, Threads: []thr{{0, 2}, {0, 2}, {0, 2}}, Faults: true},
-		{Name: "2proxy-2thr-b4", Proxies: 2, Block: 4, Threads: []thr{{0, 3}, {1, 3}}, Faults: true},
+		{Name: "3proxy-3thr-b2", Proxies: 3, Block: 2, Threads: []thr{{Proxy: 0, Calls: 3}, {Proxy: 1, Calls: 3}, {Proxy: 2, Calls: 3}}, Faults: true},
+		{Name: "2proxy-3thr-b3", Proxies: 2, Block: 3, Threads: []thr{{Proxy: 0, Calls: 3}, {Proxy: 0, Calls: 3}, {Proxy: 1, Calls: 3}}, Faults: true},
+		{Name: "1proxy-3thr-b1", Proxies: 1, Block: 1, Threads: []thr{{Proxy: 0, Calls: 2}, {Proxy: 0, Calls: 2}, {Proxy: 0, Calls: 2}}, Faults: true},
+		{Name: "2proxy-2thr-b4", Proxies: 2, Block: 4, Threads: []thr{{Proxy: 0, Calls: 3}, {Proxy: 1, Calls: 3}}, Faults: true},
+		// consumer side: sessions plan INSERTs (1-4 rows, INSERT ... SET, REPLACE) through the
+		// real plan path; with block 1-3 the cached block runs out between the rows of a statement
+		{Name: "stmt-1proxy-b1", Proxies: 1, Block: 1, Threads: []thr{st(0, "v2"), st(0, "s")}, Faults: true},
+		{Name: "stmt-1proxy-b2", Proxies: 1, Block: 2, Threads: []thr{st(0, "v3"), st(0, "n2")}, Faults: true},
+		{Name: "stmt-2proxy-b1", Proxies: 2, Block: 1, Threads: []thr{st(0, "v2", "s"), st(1, "f2")}, Faults: true},
+		{Name: "stmt-2proxy-b3", Proxies: 2, Block: 3, Threads: []thr{st(0, "v4"), st(1, "n2", "v1")}, Faults: true},
+		{Name: "stmt-2proxy-b2", Proxies: 2, Block: 2, Threads: []thr{st(0, "n3"), st(1, "r3")}, Faults: true},
+		{Name: "stmt-2proxy-b1-rows4", Proxies: 2, Block: 1, Threads: []thr{st(0, "f4"), st(1, "s")}, Faults: true},
+		{Name: "stmt-mixed-b2", Proxies: 2, Block: 2, Threads: []thr{st(0, "v3"), {Proxy: 1, Calls: 2}}, Faults: true},
+		{Name: "stmt-3thr-2proxy-b1", Proxies: 2, Block: 1, Threads: []thr{st(0, "v2"), st(0, "s"), st(1, "n2")}, Faults: true},
+		{Name: "stmt-3proxy-b2", Proxies: 3, Block: 2, Threads: []thr{st(0, "v3"), st(1, "v1", "s"), st(2, "f2")}, Faults: true},
 	}
 	return s
 }
